@@ -698,7 +698,7 @@ func (m *Mined) editOnce(t *rapid.T, needMarker bool) (string, bool) {
 		choices = append(choices, "dup-hole", "dup-hole", "dup-hole", "add-hole-arg", "add-hole-arg")
 	}
 	if !needMarker {
-		choices = append(choices, "swap", "drop-elem", "dup-hole", "del-stmt", "drop-dots", "wrap-sub")
+		choices = append(choices, "swap", "drop-elem", "dup-hole", "del-stmt", "drop-dots", "wrap-sub", "hole-in-name-slot")
 	}
 	if m.Opts.Unwrap && !needMarker && m.Kind == ref.PExpr && len(holeSlots) > 0 && len(m.Edits) == 0 {
 		choices = append(choices, "unwrap", "unwrap")
@@ -742,6 +742,24 @@ func (m *Mined) editOnce(t *rapid.T, needMarker bool) (string, bool) {
 		}
 		m.Plus = &ast.CallExpr{Fun: markerIdent(mk), Args: []ast.Expr{m.Plus.(ast.Expr)}}
 		return "wrap-root", true
+	case "hole-in-name-slot":
+		// A metavariable where the syntax only allows a name (the selector of
+		// x.f, a field name, ...): instantiating the replacement works for
+		// sites where it stands for an identifier and cannot be done where it
+		// stands for a call or a literal - those sites stay as they are.
+		var nameSlots []Slot
+		for _, s := range identSlots {
+			if s.Type() == identPtr {
+				nameSlots = append(nameSlots, s)
+			}
+		}
+		if len(nameSlots) == 0 || len(holeSlots) == 0 {
+			return "", false
+		}
+		h := holeSlots[rapid.IntRange(0, len(holeSlots)-1).Draw(t, "nameHole")].Node().(*ast.Ident)
+		s := nameSlots[rapid.IntRange(0, len(nameSlots)-1).Draw(t, "nameSlot")]
+		s.Set(&ast.Ident{Name: h.Name})
+		return "hole-in-name-slot@" + s.Name(), false
 	case "wrap-binop":
 		// the whole replacement becomes a binary expression: wherever the
 		// instance was an operand, the output needs parentheses
